@@ -21,7 +21,7 @@ ASSUMPTIONS = ['domain (stated in the property): halo depth in cells <= raster h
 
 
 def plan(tier, seed):
-    n = 1250 if tier == 'quick' else 16000
+    n = 1000 if tier == 'quick' else 16000
     return [('rand', i) for i in range(n)]
 
 
